@@ -299,23 +299,45 @@ func checkC12(w *World, r *Report) {
 
 	r.Rule("R12.3", "when, if-feature and status written on a uses or augment reach every node it introduces: inheritCommonProperties copies exactly those three, and every child moved or cloned by applyUsesToNode / applyAugment passes through it first", 3)
 	r.guard("R12.3", func() {
-		icp := w.Func("compile", "inheritCommonProperties")
-		fd, _ := w.FuncDecl(icp)
-		names, _ := nodeTypeNames(w)
-		var kinds []string
-		ast.Inspect(fd.Body, func(x ast.Node) bool {
-			if ce, ok := x.(*ast.CallExpr); ok {
-				if c := calleeOf(p, ce); c != nil && nm(c) == "ChildrenByType" && objOfIdent(p, ce.Fun.(*ast.SelectorExpr).X) == paramObj(p, fd, 0) {
-					if v, ok := ConstInt(p, ce.Args[0]); ok {
-						kinds = append(kinds, names[v])
-					}
+		icps := c12InheritFuncs(w)
+		isInherit := func(f *types.Func) bool {
+			for _, x := range icps {
+				if x == f {
+					return true
 				}
 			}
-			return true
-		})
-		sort.Strings(kinds)
+			return false
+		}
+		inheritCalls := func(n ast.Node) []*ast.CallExpr {
+			var out []*ast.CallExpr
+			for _, x := range icps {
+				out = append(out, allCallsTo(p, n, x)...)
+			}
+			return out
+		}
+		_ = isInherit
+		names, _ := nodeTypeNames(w)
 		c12InheritUnconditional(w, r, "R12.3")
-		r.Check(strings.Join(kinds, ",") == "if-feature,status,when", "R12.3", "inheritCommonProperties", fd.Pos(), "copies if-feature, status, when from the parent", "inherited statement set is {"+strings.Join(kinds, ",")+"}, must be {if-feature,status,when}")
+		for _, icp := range icps {
+			fd, _ := w.FuncDecl(icp)
+			var kinds []string
+			ast.Inspect(fd.Body, func(x ast.Node) bool {
+				if ce, ok := x.(*ast.CallExpr); ok {
+					if c := calleeOf(p, ce); c != nil && nm(c) == "ChildrenByType" && objOfIdent(p, ce.Fun.(*ast.SelectorExpr).X) == paramObj(p, fd, 0) {
+						if v, ok := ConstInt(p, ce.Args[0]); ok {
+							kinds = append(kinds, names[v])
+						}
+					}
+				}
+				return true
+			})
+			sort.Strings(kinds)
+			label := "inheritCommonProperties"
+			if len(icps) > 1 {
+				label = nm(icp)
+			}
+			r.Check(strings.Join(kinds, ",") == "if-feature,status,when", "R12.3", label, fd.Pos(), "copies if-feature, status, when from the parent", "inherited statement set is {"+strings.Join(kinds, ",")+"}, must be {if-feature,status,when}")
+		}
 		// applyUsesToNode: every Clone result is passed to inheritCommonProperties(use, newKid, …)
 		au := w.Method("compile", "Compiler", "applyUsesToNode")
 		afd, _ := w.FuncDecl(au)
@@ -337,7 +359,7 @@ func checkC12(w *World, r *Report) {
 			if nk == nil {
 				return true
 			}
-			for _, ce := range allCallsTo(p, rs.Body, icp) {
+			for _, ce := range inheritCalls(rs.Body) {
 				if objOfIdent(p, ce.Args[0]) == paramObj(p, afd, 2) && objOfIdent(p, ce.Args[1]) == nk {
 					okU = true
 				}
@@ -371,7 +393,7 @@ func checkC12(w *World, r *Report) {
 						for i, s := range blk.List {
 							if len(allCallsTo(p, s, applyChange)) > 0 && s.Pos() <= ce.Pos() && ce.End() <= s.End() {
 								for _, prev := range blk.List[:i] {
-									for _, ic := range allCallsTo(p, prev, icp) {
+									for _, ic := range inheritCalls(prev) {
 										if objOfIdent(p, ic.Args[1]) == val && objOfIdent(p, ic.Args[0]) == paramObj(p, gfd, 0) {
 											pre = true
 										}
@@ -524,6 +546,41 @@ func checkC15(w *World, r *Report) {
 			panic(undecided{"parse.getPfxName"})
 		}
 		loops := ssaLoops(f)
+		if len(loops) == 0 {
+			// the scan handed to slices.IndexFunc (first index whose element satisfies the test): the element
+			// used is the one at that index of the same list
+			for _, b := range f.Blocks {
+				for _, in := range b.Instrs {
+					c, ok := in.(*ssa.Call)
+					if !ok || c.Call.StaticCallee() == nil || len(c.Call.Args) != 2 {
+						continue
+					}
+					g := c.Call.StaticCallee()
+					if o := g.Origin(); o != nil {
+						g = o
+					}
+					if g.String() != "slices.IndexFunc" {
+						continue
+					}
+					uses := 0
+					okUse := true
+					for _, ref := range *c.Referrers() {
+						switch x := ref.(type) {
+						case *ssa.IndexAddr:
+							uses++
+							if x.X != c.Call.Args[0] || x.Index != ssa.Value(c) {
+								okUse = false
+							}
+						case *ssa.BinOp, *ssa.DebugRef:
+						default:
+							okUse = false
+						}
+					}
+					r.Check(uses > 0 && okUse, "R15.6", "getPfxName import scan", f.Pos(), "slices.IndexFunc: the first matching import decides", "the index found by the search is not used to take the import from the list searched")
+					return
+				}
+			}
+		}
 		if len(loops) != 1 {
 			panic(undecided{"parse.getPfxName: expected one loop"})
 		}
